@@ -336,6 +336,14 @@ def gen_sources(ctx):
     if os.path.exists(p):
         srcs += [(json.loads(l)["src"], "corpus") for l in open(p, encoding="utf-8") if l.strip()]
     srcs += [(s, "random_fixed") for s in RANDOM_SOURCES]
+    # play-from restoring many controller / program values set on several channels (whatever container holds them, the order
+    # of the restored messages must not depend on the process)
+    for _ in range(10 * scale):
+        n = rng.choice([3, 6, 10, 16])
+        chans = rng.sample(range(1, 17), min(n, 16))
+        body = "".join("Channel=%d y%d,%d %s" % (ch, rng.choice([1, 7, 10, 11, 64, 91, 93]), rng.randrange(0, 128), rng.choice(["", "@%d " % rng.randrange(1, 128)]))
+                       for ch in chans)
+        srcs.append((body + "l4 c " + rng.choice(["? d e", "d ? e", "PlayFromHere d"]), "playfrom_multichannel"))
     # built-in functions with every number of arguments, where the result (also an error placeholder) reaches the bytes
     argsets = ["", "A", "A,2", "A,2,1", "A,2,1,5", "{b},{X}", "A,{b}", "A,{b},{X}", "65", "1,2", "0"]
     for fn in ["MID", "REPLACE", "SizeOf", "SIZEOF", "CHR", "Random", "RandomSelect", "RANDOM_SELECT", "Int", "Str", "ASC", "NumberFormat", "HEX", "Hex"]:
